@@ -196,7 +196,7 @@ class Driver:
                  "del_atom_stereo", "get_atom_stereo_change"):
             return base_op(n, a=self.atom(g))
         if n == "role_bonds":
-            return base_op(n, ch=r.choice(["formed", "broken", "fleeting"]))
+            return base_op(n, ch=r.choice(["formed", "broken", "fleeting"]), flag=r.random() < 0.4)
         if n == "active_atoms":
             return base_op(n, flag=r.random() < 0.5)
         if n == "add_bond":
